@@ -701,10 +701,42 @@ class Registry:
         names = [a.arg for a in fn.args.args]
         missing = [n for n in names if n not in env]
         if missing:
+            # positional aliases: if the function under verification is the baseline version up to a consistent renaming
+            # of locals, a contract that names an old local is re-bound to the local in the same binding position
+            alias = self.local_aliases()
+            if alias and all(alias.get(n) in env for n in missing):
+                return {n: env[n] if n in env else env[alias[n]] for n in names}
+        if missing:
             # a contract names a parameter or local that the code no longer has (renamed local, changed signature):
             # the contract cannot be applied to this code -> outside the verifier's reach, never a verdict
             raise EngineUnsupported(f"contract lambda parameter(s) {missing} not available (have {sorted(env)})")
         return {n: env[n] for n in names}
+
+    def local_aliases(self):
+        """old local name -> current local name for the function being verified, when it is alpha-equivalent to the
+        version recorded in baseline.json (same alpha_hash); {} otherwise."""
+        q = getattr(self, "cur_func", None)
+        if not q:
+            return {}
+        cache = self.__dict__.setdefault("_alias_cache", {})
+        if q in cache:
+            return cache[q]
+        out = {}
+        try:
+            import json as _json
+            with open(os.path.join(os.path.dirname(CONTRACT_DIR), "baseline.json")) as f:
+                b = _json.load(f).get("functions", {})
+            fi = self.prog.funcs.get(q)
+            ent = next((v for k, v in b.items() if k.split("@")[0].split("#")[0] == q and v.get("locals_order") is not None), None)
+            if fi is not None and ent and ent.get("alpha_hash") == fi.alpha_hash():
+                cur = fi.locals_order()
+                old = ent["locals_order"]
+                if len(cur) == len(old):
+                    out = {o: c for o, c in zip(old, cur) if o != c}
+        except Exception:
+            out = {}
+        cache[q] = out
+        return out
 
     # ------------------------------------------------------------------ calls
     def eval_call(self, ex: Executor, st: State, e: ast.Call):
@@ -1417,6 +1449,13 @@ class Registry:
 
     def havoc_for_loop(self, ex, st: State, body, lc: LoopContract, extra_names=()):
         names = (self.assigned_names(body) | set(extra_names))
+        alias = self.local_aliases()            # old local name -> current one (consistent renaming since the baseline)
+        if alias and lc is not None:
+            rev = {c: o for o, c in alias.items()}
+            # the loop contract speaks the old names: present it under the current ones
+            lc = LoopContract(invariant=lc.invariant, variant=lc.variant,
+                              types={alias.get(k, k): v for k, v in lc.types.items()},
+                              modifies=[".".join([alias.get(m.split(".")[0], m.split(".")[0])] + m.split(".")[1:]) for m in lc.modifies])
         roots = self.mutated_roots(body) | set(lc.modifies if lc else [])
         # heap objects first (so that aliases keep pointing to the same cells)
         for r in sorted(roots):
@@ -1469,7 +1508,9 @@ class Registry:
         if lc is None:
             return
         roots = {}
+        alias = self.local_aliases()
         for n, tx in lc.types.items():
+            n = alias.get(n, n)
             v = st.env.get(n)
             if v is None and "__" in n:          # attribute path written with '__' (context__errors)
                 try:
